@@ -49,7 +49,7 @@ NCPU = min(16, os.cpu_count() or 1)
 MODULE, CFG = "MxExportTrace", "MxExportTrace.cfg"
 
 SIZES = {"quick": {"programs": 150}, "thorough": {"programs": 1800}}
-CLASSES = ["static", "derived", "instance", "instance_child", "nested"]
+CLASSES = ["static", "derived", "instance", "instance_child", "nested", "nested_child"]
 
 ASSUMPTIONS = [
     "export subset generated: def / lambda formulas rendered through the %d templates of "
@@ -57,9 +57,12 @@ ASSUMPTIONS = [
     "lambdas with default capture, conditional chains, locals shadowing built-ins and unused globals); "
     "positional, keyword and default spellings of calls; integer references as literals or pickled "
     "(numpy.int64), object-valued references (spaces, cells) in auto/relative/absolute mode, "
-    "model-level references; references / cells named like built-ins (max, min, abs, all, pow, hash, "
-    "id); ordered bases with derived members; one- and two-parameter ItemSpaces (second parameter "
-    "with default) incl. a nested parametrised child and a plain child; formulas that raise "
+    "model-level references, a module-valued reference (datetime); attribute access whose attribute "
+    "is spelled like a global name of the space (datetime.datetime, n.n on a space-valued reference "
+    "n whose target has a member n); references / cells named like built-ins (max, min, abs, all, "
+    "pow, hash, id); ordered bases with derived members; one- and two-parameter ItemSpaces (second "
+    "parameter with default) incl. a plain child and a nested parametrised child whose parameter has "
+    "its own name or the same name as the outer one, with a static child of its own; formulas that raise "
     "ValueError, with and without a catch-all handler" % len(xt.TEMPLATES),
     "NOT generated because the exported cells are plain methods / the exporter documents or shows no "
     "support: subscription and .value on cells reached by attribute (`T.c[1]`, `T.c.value`), the "
@@ -314,6 +317,11 @@ def run(pid, tier, seed):
         feats["programs_with_bases"] += any(b for _, b in d["bases"])
         feats["programs_with_itemspaces"] += bool(d["pf"])
         feats["programs_with_nested_itemspaces"] += len(d["pf"]) > 1
+        feats["programs_with_nested_params_same_name"] += d["deco"]["nested"].startswith("same_name")
+        feats["programs_with_nested_params_distinct_names"] += d["deco"]["nested"].startswith("distinct")
+        feats["programs_with_static_child_of_nested_itemspace"] += d["deco"]["nested"].endswith("+child")
+        feats["programs_with_attribute_spelled_like_global"] += bool(d["deco"]["attr_like_global"])
+        feats["programs_with_module_refs"] += bool(d["deco"]["modules"])
         feats["programs_with_raise"] += any(op[0] == "raise" for f in d["flib"].values() for op in f["ops"])
         feats["programs_with_handler"] += any(f.get("catch") for f in d["flib"].values())
         feats["programs_with_lambda_formulas"] += any(f.get("style") == "lambda" for f in d["flib"].values())
